@@ -55,6 +55,8 @@ def cases(tier, seed):
         out.append({"seed": seed * 3121 + i * 5 + 2, "backend": "proc", "kind": PROC_KINDS[i % len(PROC_KINDS)]})
     for i in range(n_sim):
         out.append({"seed": seed * 3121 + i * 5 + 3, "backend": "sim", "kind": SIM_KINDS[i % len(SIM_KINDS)]})
+    for i in range(400 if tier == "quick" else 10000):
+        out.append({"seed": seed * 3121 + i * 5 + 4, "backend": "remote", "kind": "direct"})
     return out
 
 
@@ -72,6 +74,10 @@ def floors(tier):
         "sim:runs": 250 * k,
         "proc:runs": 500 * k,
         "decided:self_completed_runs": 300 * k,
+        "remote:runs": 300 * k,
+        "remote:polls_with_status_Stopping": 250 * k,
+        "remote:reports_written_while_Stopping": 500 * k,
+        "remote:resumes": 100 * k,
     }
 
 
@@ -332,7 +338,192 @@ def check(o, events, rows, backend, sjwd=True, exc=None):
     return sig
 
 
+def async_backend_class():
+    from datetime import datetime
+
+    from syne_tune.backend.trial_backend import TrialBackend
+    from syne_tune.backend.trial_status import Status
+    from syne_tune.constants import ST_WORKER_TIMESTAMP
+
+    class AsyncStopBackend(TrialBackend):
+        """Minimal poll-based backend on the public TrialBackend interface whose jobs are stopped asynchronously, like a remote
+        training service: stop / pause only send a signal, the job stays 'Stopping' (one of the two busy states) for some
+        ticks and keeps reporting, then terminates. ``own_status``: the backend reports 'Paused' / 'Stopped' for trials it has
+        signalled itself right away (as the SageMaker backend does) instead of the service's 'Stopping'."""
+
+        def __init__(self, rng, n_levels, latency, burst, own_status):
+            super().__init__()
+            self.rng, self.n_levels, self.latency, self.burst, self.own_status = rng, n_levels, latency, burst, own_status
+            self.jobs = {}
+            self.metrics = {}  # trial -> all reports since the start of the trial
+            self.signalled = {}  # trial -> 'paused' | 'stopped'
+            self.run_no = {}
+            self.uid = 0
+            self.emitted = {}
+            self.written_while_stopping = 0
+
+        def tick(self):
+            for tid, job in self.jobs.items():
+                if job["status"] not in (Status.in_progress, Status.stopping):
+                    continue
+                for _ in range(self.rng.randint(0, self.burst)):
+                    if job["next"] > self.n_levels:
+                        break
+                    self.uid += 1
+                    self.metrics[tid].append({"epoch": job["next"], "uid": self.uid, "run": job["run"], ST_WORKER_TIMESTAMP: self.uid})
+                    self.emitted.setdefault((tid, job["run"]), []).append(self.uid)
+                    job["next"] += 1
+                    if job["status"] == Status.stopping:
+                        self.written_while_stopping += 1
+                if job["status"] == Status.stopping:
+                    job["ticks"] -= 1
+                    if job["ticks"] <= 0:
+                        job["status"] = Status.paused if self.signalled.get(tid) == "paused" else Status.stopped
+                elif job["next"] > self.n_levels:
+                    job["status"] = Status.completed
+
+        def _schedule(self, trial_id, config):
+            run = self.run_no.get(trial_id, -1) + 1
+            self.run_no[trial_id] = run
+            self.metrics.setdefault(trial_id, [])
+            self.signalled.pop(trial_id, None)
+            # a resumed job continues after the last level written before the pause signal took effect
+            self.jobs[trial_id] = {"status": Status.in_progress, "run": run, "ticks": None,
+                                   "next": 1 if run == 0 or not self.jobs[trial_id].get("ckpt") else self.jobs[trial_id]["ckpt"] + 1}
+
+        def _signal(self, trial_id, what, result):
+            job = self.jobs[trial_id]
+            self.signalled[trial_id] = what
+            job["ckpt"] = None if result is None else result.get("epoch")
+            if job["status"] == Status.in_progress:
+                if self.latency == 0:
+                    job["status"] = Status.paused if what == "paused" else Status.stopped
+                else:
+                    job["status"], job["ticks"] = Status.stopping, self.latency
+
+        def _stop_trial(self, trial_id, result):
+            self._signal(trial_id, "stopped", result)
+
+        def _pause_trial(self, trial_id, result):
+            self._signal(trial_id, "paused", result)
+
+        def _resume_trial(self, trial_id):
+            pass
+
+        def _all_trial_results(self, trial_ids):
+            res = []
+            for tid in trial_ids:
+                job = self.jobs[tid]
+                st = job["status"]
+                if self.own_status and tid in self.signalled:
+                    st = Status.paused if self.signalled[tid] == "paused" else Status.stopped
+                res.append(self._trial_dict[tid].add_results(metrics=list(self.metrics[tid]), status=st, training_end_time=datetime.now()))
+            return res
+
+        def busy_trial_ids(self):
+            return [(t, j["status"]) for t, j in self.jobs.items() if j["status"] in (Status.in_progress, Status.stopping)]
+
+        def copy_checkpoint(self, src_trial_id, tgt_trial_id):
+            pass
+
+        def delete_checkpoint(self, trial_id):
+            pass
+
+        def stdout(self, trial_id):
+            return []
+
+        def stderr(self, trial_id):
+            return []
+
+    return AsyncStopBackend
+
+
+def run_engine_remote(spec):
+    """Direct driver of the generic poll logic (TrialBackend.fetch_status_results / pause / resume / stop) over a backend whose
+    jobs stop asynchronously; whoever polls (a tuning loop, a monitoring tool) passes any set of trial ids."""
+    from syne_tune.backend.trial_status import Status
+
+    o = Obs()
+    o.count("remote:runs")
+    rng = random.Random(spec["seed"])
+    n_levels = rng.randint(3, 10)
+    be = async_backend_class()(random.Random(spec["seed"] + 1), n_levels, latency=rng.choice([0, 1, 1, 2, 3]),
+                               burst=rng.choice([1, 1, 2, 3]), own_status=rng.random() < 0.3)
+    n_trials = rng.randint(2, 6)
+    p_stop, p_pause = rng.choice([0.05, 0.15]), rng.choice([0.0, 0.15, 0.3])
+    poll_all = rng.random() < 0.7
+    cur_run, decided, deliv, order_ok = {}, {}, {}, True
+    last_status = {}
+    sig = []
+    for poll in range(rng.randint(15, 60)):
+        if len(be.trial_ids) < n_trials and rng.random() < 0.5:
+            t = be.start_trial(config={"x": len(be.trial_ids)})
+            cur_run[t.trial_id] = 0
+        for tid, st in list(last_status.items()):
+            # a paused trial whose job has terminated may be resumed (while the service still says 'Stopping' the trial is not
+            # 'paused' for resume_trial)
+            if st == Status.paused and be.jobs[tid]["status"] != Status.stopping and rng.random() < 0.4:
+                be.resume_trial(tid)
+                cur_run[tid] += 1
+                last_status[tid] = Status.in_progress
+                o.count("remote:resumes")
+        be.tick()
+        ids = list(be.trial_ids)
+        if not poll_all:
+            ids = [t for t in ids if last_status.get(t) in (None, Status.in_progress) or rng.random() < 0.5]
+        if not ids:
+            continue
+        status, results = be.fetch_status_results(ids)
+        for tid, (_tr, st) in status.items():
+            last_status[tid] = st
+            if st == Status.stopping:
+                o.count("remote:polls_with_status_Stopping")
+        decided_now = {}
+        for tid, res in results:
+            key = (tid, res["run"])
+            o.count("deliveries")
+            if res["run"] != cur_run[tid]:
+                o.violate("never_after_stop_even_after_resume", "remote:result_of_earlier_run_delivered_after_resume",
+                          {"trial": tid, "result_run": res["run"], "current_run": cur_run[tid], "uid": res["uid"]})
+            elif key in decided:
+                o.violate("never_after_stop", f"remote:result_delivered_after_{decided[key][1]}_decision:status_{status[tid][1]}",
+                          {"trial": tid, "run": res["run"], "uid": res["uid"], "decided_at_uid": decided[key][0],
+                           "own_status": be.own_status, "latency": be.latency})
+            deliv.setdefault(key, []).append(res["uid"])
+            if key in decided or key in decided_now:
+                continue  # rest of the batch of a run already decided upon: what a tuning loop drops
+            r = rng.random()
+            if r < p_stop:
+                be.stop_trial(tid, result=res)
+                decided_now[key] = (res["uid"], "STOP")
+                last_status[tid] = Status.stopped
+            elif r < p_stop + p_pause and res["epoch"] < n_levels:
+                be.pause_trial(tid, result=res)
+                decided_now[key] = (res["uid"], "PAUSE")
+                last_status[tid] = "pausing"
+        decided.update(decided_now)
+    for key, dl in sorted(deliv.items()):
+        em = be.emitted.get(key, [])
+        o.count("runs_checked")
+        if len(set(dl)) != len(dl):
+            o.violate("exactly_once", "remote:result_delivered_twice", {"run": key, "delivered": dl[:40]})
+        elif dl != em[: len(dl)]:
+            o.violate("gap_free_prefix_in_order", "remote:delivered_sequence_is_not_a_prefix", {"run": key, "delivered": dl[:40], "emitted": em[:40]})
+        elif key not in decided and be.jobs[key[0]]["run"] == key[1] and be.jobs[key[0]]["status"] == Status.completed \
+                and last_status.get(key[0]) == Status.completed and len(dl) != len(em):
+            o.violate("whole_sequence_when_completed", "remote:completed_run_not_fully_delivered", {"run": key, "delivered": len(dl), "emitted": len(em)})
+        if key in decided:
+            o.count("runs_ended_by_decision")
+        sig.append((key, len(dl), decided.get(key, (None, "open"))[1]))
+    o.count("remote:reports_written_while_Stopping", be.written_while_stopping)
+    o.set_sig(("remote", sig), nontrivial=bool(decided))
+    o.sample = {"backend": "remote", "latency": be.latency, "own_status": be.own_status, "runs": [list(map(str, x)) for x in sig[:12]]}
+    return o.result()
+
+
 def run_case(spec):
+    if spec["backend"] == "remote":
+        return run_engine_remote(spec)
     o = Obs()
     p = expand(spec)
     backend = spec["backend"]
